@@ -22,7 +22,7 @@ from .symstmt import run_function, bind_call_shape
 from .sym import VObj, VConc, VInt
 from .universe import Universe, Unsupported
 
-MAXN = 6
+MAXN = 7
 FOREIGN = ['zz1', 'zz2']
 ANN_CLASSES = [('UA', uc.UA), ('UC', uc.UC), ('UImpl', uc.UImpl), ('UH', uc.UH), ('UGenPlain', uc.UGenPlain)]
 RET_CLASS = ('UContainer', uc.UContainer)
@@ -45,7 +45,7 @@ def kind_sequences(maxp):
 
 
 def signatures(tier):
-    maxp = 3 if tier == 'quick' else 4
+    maxp = 3 if tier == 'quick' else 5
     sigs = []
     for ks in kind_sequences(maxp):
         n = len(ks)
@@ -54,6 +54,9 @@ def signatures(tier):
         ann_subsets = list(itertools.product((0, 1), repeat=n))
         if tier == 'quick' and n == 3:
             ann_subsets = [a for a in ann_subsets if sum(a) in (1, 3) or a == (1, 0, 1)]
+        if n == 5:
+            # five parameters: all annotated, each single one, and two alternating patterns
+            ann_subsets = [a for a in ann_subsets if sum(a) in (1, 5) or a in ((1, 0, 1, 0, 1), (0, 1, 0, 1, 0))]
         for ann in ann_subsets:
             for ret in ((1,) if sum(ann) else (1,)):
                 if not sum(ann) and not ret:
